@@ -83,6 +83,16 @@ claim("C13", "model_checking",
       "trace validation of the real name managers against a TLA+ contract spec (Names.tla); histories are "
       "TLC-generated behaviours of NameGen.tla")
 
+claim("C20", "model_checking",
+      "every fragment sequence up to the bound (TLC-enumerated) in three statement templates, several "
+      "widths, indentation levels and both padding functions is wrapped by the real wrap_line; TLC judges "
+      "the output at character level (tokens preserved, no string split, width, continuation form, Python "
+      "syntax tree unchanged)",
+      "trusted: lexeme definition in Wrap.tla; ast.parse as the observation of Python syntax trees; no "
+      "escaped quotes in the catalogue",
+      "TLA+ contract spec (Wrap.tla, character-level scanner) evaluated by TLC over outputs of the real "
+      "wrap_line; inputs are TLC-generated behaviours of WrapGen.tla")
+
 NOT_YET = "check not built yet (work in progress, see DESIGN.md section 11)"
 NOT_APPLICABLE = {}
 
